@@ -238,8 +238,6 @@ def gen_kernels(seed, tier):
                 for zt in zs:
                     for tmode in TRACE_SETS if pop else ["all"]:
                         k += 1
-                        if tier == "quick" and two and pop and k % 3:
-                            continue
                         levels = mk()
                         ops = _mk_ops(levels, [a, b])
                         z = {"d": 1, "tree": zt, "shape": [n + 4]} if pop else None
@@ -254,7 +252,7 @@ def gen_kernels(seed, tier):
         yield finish_case(levels, _mk_ops(levels, [a, None]), {"d": 1, "tree": [], "shape": [n + 4]},
                           [["W", "iter"], ["W", "populate_1"]], [2, 1000], 0, prematch=False)
     # ---- templates and random nests on random trees
-    nrand = 700 if tier == "quick" else 30000
+    nrand = 3000 if tier == "quick" else 30000
     names = sorted(TEMPLATES)
     for i in range(nrand):
         dflt = rng.choice([0, 0, 0, 7])
@@ -304,7 +302,7 @@ TYPES = ["iter", "t1"]
 
 def gen_api(seed, tier):
     rng = random.Random(seed * 104729 + 61)
-    n = 500 if tier == "quick" else 20000
+    n = 2500 if tier == "quick" else 20000
     for _ in range(n):
         evs = []
         ranks = RANKS[:rng.choice([1, 2, 3])]
